@@ -187,4 +187,37 @@ theorem groupFrom_head_key (evs : List Ev) (last : Option String) (k : Option St
       · exact ih last (its ++ items) H
       · exact ih last its (addTo H last items)
 
+theorem labelOrder_eq_labels (evs : List Ev) : labelOrder evs = labels evs := by
+  induction evs with
+  | nil => rfl
+  | cons e r ih => cases e <;> simp [labelOrder, labels, ih]
+
+theorem labelIndex_none (g : Groups) (l : String) (h : some l ∉ keys g) : labelIndex g l = none := by
+  induction g with
+  | nil => rfl
+  | cons a r ih =>
+    obtain ⟨k, its⟩ := a
+    have hk : k ≠ some l := fun e => h (by simp [keys, e])
+    have hr : some l ∉ keys r := fun hm => h (by simp [keys] at hm ⊢; exact Or.inr hm)
+    simp [labelIndex, hk, ih hr]
+
+/-- `order[order.index(x) + 1:]` -/
+theorem after_first_occurrence (a : List String) (x : String) (r : List String) (h : x ∉ a) :
+    ((a ++ x :: r).dropWhile (· != x)).drop 1 = r := by
+  induction a with
+  | nil => simp [List.dropWhile]
+  | cons y a ih =>
+    have hy : y ≠ x := fun e => h (by simp [e])
+    have hr : x ∉ a := fun hm => h (by simp [hm])
+    simp only [List.cons_append, List.dropWhile_cons, bne_iff_ne, ne_eq, hy, not_false_eq_true, if_true]
+    exact ih hr
+
+/-- the keys of the groups of a program are `none` or labels of the program -/
+theorem keys_groupData (evs : List Ev) : ∀ k ∈ keys (groupData evs), k = none ∨ ∃ l ∈ labels evs, k = some l := by
+  intro k hk
+  rcases keys_groupFrom evs none [] k hk with h | h | h
+  · simp [keys] at h
+  · exact Or.inl h
+  · exact Or.inr h
+
 end Qbee.Data
